@@ -22,6 +22,7 @@ import (
 // its misbehaviour from the episode's EntropyPlan.
 type simEntropy struct {
 	plan      *EntropyPlan
+	fixed     []byte // if set, the stream delivers these bytes first
 	stream    *core.Rand
 	delivered []byte
 	call      int
@@ -62,7 +63,15 @@ func (s *simEntropy) Read(p []byte) (int, error) {
 	if n < len(p) {
 		s.short++
 	}
-	s.stream.Bytes(p[:n])
+	if len(s.fixed) > 0 {
+		if n > len(s.fixed) {
+			n = len(s.fixed)
+		}
+		copy(p[:n], s.fixed[:n])
+		s.fixed = s.fixed[n:]
+	} else {
+		s.stream.Bytes(p[:n])
+	}
 	s.delivered = append(s.delivered, p[:n]...)
 	if s.plan.EOFWithLast && len(s.delivered) >= s.want {
 		s.eofLast++
